@@ -91,10 +91,19 @@ def _job(args):
     warnings.filterwarnings("ignore")
     import numpy as np
     spec, pre, mid, hseed = args
-    for i, k in enumerate(pre):
-        _foreign(hseed * 100 + i, k, spec["D"])
     from pybads import BADS
     fun, x0, lb, ub, plb, pub, cons, opts, aux = gen.build(spec)
+    for i, k in enumerate(pre):
+        if k == "twin":
+            # another instance defined by the VERY SAME argument objects (a multi-start loop, a benchmark script): constructed, sometimes run
+            tw = BADS(lambda x: float(np.sum(np.asarray(x) ** 2)), x0, lb, ub, plb, pub, non_box_cons=cons, options={"display": "off", "max_fun_evals": 12, "random_seed": hseed})
+            if (hseed + i) % 2:
+                try:
+                    tw.optimize()
+                except Exception:
+                    pass
+            continue
+        _foreign(hseed * 100 + i, k, spec["D"])
     # seeding discipline: record the order of global-generator uses
     log = []
     o_seed, o_uniform, o_rand, o_randn, o_normal, o_randint, o_perm = (np.random.seed, np.random.uniform, np.random.rand, np.random.randn, np.random.normal,
@@ -108,7 +117,10 @@ def _job(args):
     np.random.seed, np.random.uniform, np.random.rand = w("seed", o_seed), w("uniform", o_uniform), w("rand", o_rand)
     np.random.randn, np.random.normal, np.random.randint, np.random.permutation = w("randn", o_randn), w("normal", o_normal), w("randint", o_randint), w("permutation", o_perm)
     try:
-        b = BADS(fun, x0, lb, ub, plb, pub, non_box_cons=cons, options=opts)
+        try:
+            b = BADS(fun, x0, lb, ub, plb, pub, non_box_cons=cons, options=opts)
+        except Exception as ex:      # the same definition is constructible in a fresh process: a failure here is a difference between the two runs
+            return {"calls": [], "ys": [], "out": {"error": "construction: " + type(ex).__name__ + ": " + str(ex)[:80]}, "log_init": list(log), "log_opt": []}
         log_init = list(log); del log[:]
         np.random.seed, np.random.uniform, np.random.rand = o_seed, o_uniform, o_rand
         np.random.randn, np.random.normal, np.random.randint, np.random.permutation = o_randn, o_normal, o_randint, o_perm
@@ -199,6 +211,11 @@ def run(ctx):
         sp = gen.make_spec(rng, geom=rng.choice(["box", "logbox", "x0_absent", "x0_absent", "unbounded", "tight"]), cons=rng.choice([None, None, "ball"]))
         sp["options"] = gen.small_options(rng, sp["D"], sp["mode"])
         specs.append(sp)
+    # log-scaled problems whose bound vectors are shared with an instance constructed earlier ("twin" history)
+    for _ in range(2 if ctx.quick else 8):
+        sp = gen.make_spec(rng, D=rng.choice([1, 2, 3]), geom="logbox", mode=rng.choice(["det", "det", "decl"]), cons=None)
+        sp["options"] = gen.small_options(rng, sp["D"], sp["mode"])
+        specs.append(sp)
     for sp, sd in zip(specs, [0, 2 ** 31 - 1, 1]):       # boundary seed values: 0 is a valid seed
         sp["seed"] = sd
     # runs in which GP fits fail and are retried (every 2nd / 3rd invocation, or single failures)
@@ -221,6 +238,8 @@ def run(ctx):
                 mid = ["hardonly"] + mid[:1]
             if v == 0:
                 pre = ["sibling"] + pre[:1]
+            if v == 1 and sp["geom"] in ("logbox", "box", "tight") and si % 2 == 0:
+                pre = ["twin"] + pre[:1]
             if si >= n_plain and v == 1:
                 pre = ["pyrandom"] + pre[:1]
             if not pre and not mid:
@@ -259,7 +278,7 @@ def run(ctx):
             rep.violation("same_result", "bads.py:random seeding", f"result differs from the fresh-process run: {r['out']} vs {b['out']}; {tag}", case)
     rep.coverage = {
         "evaluations": stats["pairs"] + nx, "distinct_nontrivial": stats["pairs"] + nx, "cross_process_pairs": nx,
-        "rule": "one evaluation = one history pair: the same problem/options/seed run in a fresh process and after a generated foreign history (raw np.random consumption, use of the standard library's global generator, other BADS constructions and runs with other D/options, "
+        "rule": "one evaluation = one history pair: the same problem/options/seed run in a fresh process and after a generated foreign history (raw np.random consumption, use of the standard library's global generator, other BADS constructions and runs with other D/options, a twin instance constructed from the very same argument objects, "
                 "before the construction and between construction and run; sibling instances of the same dimension with other option values), plus pairs of SEPARATE interpreter processes "
                 "with different hash randomisation (PYTHONHASHSEED), compared bit for bit (every evaluated point, x, fval, fsd, func_count, message, x0); plus the seeding discipline (first generator use in __init__ and optimize() is seed(s))",
         "samples": [{"spec": specs[0], "pre": meta[1][2], "mid": meta[1][3]}], "stats": stats, "traces_validated_against_impl": stats["pairs"],
